@@ -77,7 +77,25 @@ func runC09(x *simkit.Exec) {
 		q.SkipChunks = x.Bool("q.skipchunks", 1, 6)
 		pool = append(pool, q)
 	}
+	// a third of the runs aims at the lazily expanded postings path (two posting groups, small
+	// estimated series size), where the series limit is enforced per batch instead of up front
+	lazyDirected := false
+	if x.Bool("lazyDirected", 1, 3) {
+		lazyDirected = true
+		if ms, _, _ := lazyFriendlyMatchers(x, ds, "lz"); ms != nil {
+			pool[0].Matchers = ms
+			pool[0].MinT, pool[0].MaxT = 0, int64(ds.NumSlots)*ds.SlotLen
+			pool[0].SkipChunks = x.Bool("lz.skipchunks", 1, 2)
+			pool[0] = avoidExtOnly(ds, pool[0])
+			cfg.LazyPostings = true
+			cfg.EstSeries = []uint64{1, 8, 16}[x.Draw("lz.estseries", 3)]
+			cfg.BatchSize = []int{1, 2, 10000}[x.Draw("lz.batch", 3)]
+		}
+	}
 	plans := drawPlans(x, nclients, npool, 3)
+	if lazyDirected && len(plans[0]) > 0 {
+		plans[0][0] = 0 // the directed query runs first, on cold caches
+	}
 	faults := x.Bool("faults", 1, 2)
 	f := prepare(x, ds)
 	if f == nil {
@@ -92,6 +110,10 @@ func runC09(x *simkit.Exec) {
 	// limits relative to the first query's true counts
 	cfg.SeriesLimit = drawLimit(x, "limit.series", cnt[0].Series, cnt[0].PerBlockSeries)
 	cfg.ChunkLimit = drawLimit(x, "limit.chunks", cnt[0].Chunks, cnt[0].PerBlockCh)
+	if lazyDirected && cnt[0].Series > 1 && x.Bool("lz.limitBelow", 1, 2) {
+		cfg.SeriesLimit = uint64(cnt[0].Series - 1)
+		cfg.ChunkLimit = 0
+	}
 	x.Sample = map[string]any{"blocks": len(ds.Blocks), "series_limit": cfg.SeriesLimit, "chunk_limit": cfg.ChunkLimit, "q0": pool[0].String(),
 		"q0_series": cnt[0].Series, "q0_chunks": cnt[0].Chunks, "q0_perblock_series": cnt[0].PerBlockSeries, "faults": faults, "cfg": cfg.sample()}
 	x.Nontrivial = cnt[0].Series > 0 && (cfg.SeriesLimit > 0 || cfg.ChunkLimit > 0)
